@@ -53,6 +53,7 @@ class FabricRun(object):
     self.aos = {}
     self.ao_dispatch = []
     self.ao_wakes = []
+    self.in_start_stop = 0
 
   def label_of(self, qi):
     return self.inner[qi]._label
@@ -141,7 +142,7 @@ class FabricRun(object):
           e = ev.Event(signal=sig, payload=uid)
           self.events[uid] = e
           self.pubs[uid] = {'sig': sig, 'prio': 1000 if prio is None else prio, 'begin': b, 'end': None, 'client': k,
-                            'running': self.kernel_alive(), 'calls': [[b, None]]}
+                            'running': self.kernel_alive() and not self.in_start_stop, 'calls': [[b, None]]}
           self.last_pub[k] = uid
           if prio is None:
             f.publish(e)
@@ -149,6 +150,9 @@ class FabricRun(object):
             f.publish(e, priority=prio)
           self.pubs[uid]['end'] = sim.seq
           self.pubs[uid]['calls'][0][1] = sim.seq
+          # did the fabric run for the whole of the call?  (no start/stop call in progress or completed in between)
+          self.pubs[uid]['running_after'] = self.kernel_alive() and not any(
+            o[2][0] in ('stop', 'start') and o[4] > b for o in self.ops_log) and not self.in_start_stop
         elif kind == 'republish':
           # the very same Event object is published once more
           uid = self.last_pub.get(k)
@@ -158,9 +162,17 @@ class FabricRun(object):
             f.publish(self.events[uid])
             call[1] = sim.seq
         elif kind == 'start':
-          f.start()
+          self.in_start_stop += 1
+          try:
+            f.start()
+          finally:
+            self.in_start_stop -= 1
         elif kind == 'stop':
-          f.stop()
+          self.in_start_stop += 1
+          try:
+            f.stop()
+          finally:
+            self.in_start_stop -= 1
           # any delivery thread the kernel still knows as running (whatever handles the fabric kept)
           out = any(t.role in ('fabric.fifo', 'fabric.lifo') and t.state != kernel.DONE for t in self.sim.threads)
         elif kind == 'clear':
